@@ -159,11 +159,38 @@ def run(tier):
             nondet += 1
             ck.violation("nondeterministic-diagnostics", "four runs of the same input render different diagnostics", "source:\n%s\nruns: %s" % (src, sorted(set(outs))))
     ck.log("determinism: %d inputs x 3 processes (verdict + IR), %d inputs x 4 processes (rendered diagnostics), %d differ" % (len(det), len(det2), nondet))
+    # the command line tool's own rendering (stdout.rs chooses the index type handed to the renderer):
+    # sources with multi-byte characters before the offending name; the header must name its line and column
+    from . import c18
+    import os, shutil, subprocess
+    ncli = 0
+    if c18.build_penne(ck):
+        root = os.path.join(ck.work, "cli"); shutil.rmtree(root, ignore_errors=True); os.makedirs(root)
+        crng = random.Random(ck.seed + 5)
+        for j in range(12 if tier == "quick" else 200):
+            pre = "".join(crng.choice(["é", "€", "ü", "😀", "a", " ", "ß", "日本"]) for _ in range(crng.randint(1, 10)))
+            lines = ["// " + pre if crng.random() < 0.5 else "// plain", "fn main() -> i32", "{"]
+            lines += ['\tvar msg%d = "%s";' % (k, pre) for k in range(crng.randint(0, 2))]
+            lines.append('\tvar s = "%s"; var total: i32 = qq7;' % pre if crng.random() < 0.6 else "\tvar total: i32 = qq7; // " + pre)
+            lines += ["\treturn: total", "}"]
+            text = "\n".join(lines) + "\n"
+            ln = 1 + text[:text.index("qq7")].count("\n")
+            col = 1 + len(text[:text.index("qq7")].split("\n")[-1])
+            fn = os.path.join(root, "u%d.pn" % j); open(fn, "w", encoding="utf-8").write(text)
+            p = subprocess.run([c18.PENNE, "emit", "--color=never", "--arrows=ascii", "u%d.pn" % j], cwd=root, capture_output=True, timeout=120)
+            out = (p.stdout + p.stderr).decode("utf-8", errors="replace")
+            ncli += 1
+            m = re.search(r"\[E402\][^\n]*\n\s*,-\[ u%d\.pn:(\d+):(\d+) \]" % j, out)
+            if "panicked" in out or not m:
+                bad += 1; ck.violation("cli-render-failed", "penne emit does not render the E402 of a source with multi-byte characters", "source:\n%s\noutput:\n%s" % (text, out[:1500])); continue
+            if (int(m.group(1)), int(m.group(2))) != (ln, col):
+                bad += 1; ck.violation("cli-render-position", "penne emit shows E402 at %s:%s, the undefined name is at line %d column %d (in characters)" % (m.group(1), m.group(2), ln, col), "source:\n%s\noutput:\n%s" % (text, out[:1500]))
+    ck.log("command line rendering: %d sources with multi-byte characters" % ncli)
     if not proof_ok:
         ck.violation("tie-broken:proof", "Props/C13.v no longer checks (a code without a section in docs/errors.md, or a duplicated code)", getattr(ck, "proof_output", "")[-2500:])
     ck.coverage.update(
         evaluations=len(allc) + 3 * len(det), distinct_nontrivial=len(codes_seen) + len({c[2] for c in allc}),
-        rule="diag stream: mutated corpus (tests/samples, examples, core, vendor), generated programs with 1-3 injected faults, token soup, CRLF and multi-byte variants, known-identifier faults; every reported location must lie in the file, start on the reported line at the reported column and render in 4 colour/charset configurations; determinism: 3 fresh processes per input, verdict + diagnostics + IR text compared byte for byte, and the rendered text of every diagnostic (digest) across 4 processes, including declaration cycles through 2-5 constants and a structure; distinct = distinct inputs + distinct codes observed",
+        rule="diag stream: mutated corpus (tests/samples, examples, core, vendor), generated programs with 1-3 injected faults, token soup, CRLF and multi-byte variants, known-identifier faults; every reported location must lie in the file, start on the reported line at the reported column and render in 4 colour/charset configurations; determinism: 3 fresh processes per input, verdict + diagnostics + IR text compared byte for byte, and the rendered text of every diagnostic (digest) across 4 processes, including declaration cycles through 2-5 constants and a structure; the real command line tool on sources with multi-byte characters (line and column in the rendered header); distinct = distinct inputs + distinct codes observed",
         verdicts=dict(stats), codes_observed=dict(codes_seen.most_common(60)), location_problems=bad, nondeterministic=nondet,
         samples=[dict(kind=allc[i][1], source=allc[i][2][:400], result=impl.get(allc[i][0], ["?"])) for i in (0, 5, len(allc) - 1)])
     ck.assumptions += ["ariadne's rendering itself is not modelled; rendering is exercised, not proved", "hash-seed effects are sampled over 3 processes"]
